@@ -77,6 +77,7 @@ func extractFunc(ctx *flags.Context) error {
 			{"command", strings.Join(ctx.Name, "-")},
 			{"version", gts.Version.String()},
 			{"locators", *locstrs},
+			{"invert", *invert},
 			{"filetype", filetype},
 		})
 
